@@ -8,6 +8,12 @@ Clauses(ev) ==
     CASE ev.e = "delverts" ->
             DeleteVertsViol(ev.s, ev.I, ev.t)
             \cup (IF ev.reloaded THEN Tag(SameGeometryViol(ev.t, ev.r), "reload") \cup Tag(ShapeConsistentViol(ev.r), "reload") ELSE {})
+            \* constructed skinned shapes: the partitions still hold every remaining triangle exactly once (deleting vertices
+            \* removes triangles from the shape and from its partitions alike), in memory and in the reloaded file
+            \cup (IF ev.checkParts /\ ev.t.nv > 0 /\ Len(ev.t.parts) > 0 /\ PartsIndexViol(ev.t) = {}
+                  THEN V(BagEq(AllPartTris(ev.t), CanonSeq(ev.t.tris)), "PartitionsStillHoldEveryTriangleOnce") ELSE {})
+            \cup (IF ev.checkParts /\ ev.reloaded /\ Len(ev.r.parts) > 0 /\ PartsIndexViol(ev.r) = {}
+                  THEN Tag(V(BagEq(AllPartTris(ev.r), CanonSeq(ev.r.tris)), "PartitionsStillHoldEveryTriangleOnce"), "reload") ELSE {})
       [] ev.e = "segments" ->
             SegmentationViol(ev.s, ev.info, ev.L, ev.t)
             \cup (IF ev.reloaded THEN Tag(SegsViol(ev.r), "reload") \cup Tag(V(ev.r.segTriParts = ev.t.segTriParts /\ ev.r.tris = ev.t.tris, "SameAfterReload"), "reload") ELSE {})
